@@ -6,7 +6,7 @@ V = os.path.abspath(os.path.join(os.path.dirname(__file__), ".."))
 NOTE = ("Trusted: Coq 8.16.1 kernel/coqc and vm_compute (no native_compute); no axioms (Print Assumptions of every property "
         "theorem is checked to be 'Closed under the global context' on every run; the one exception is Props/C03float.v, which uses Flocq over Coq's reals "
         "and depends on the standard library's ClassicalDedekindReals.sig_forall_dec, sig_not_dec, FunctionalExtensionality.functional_extensionality_dep and Classical_Prop.classic); the translators py2gallina.py (arithmetic kernel), py2gallina_cache.py (cache decisions), "
-        "py2gallina_revise.py (recursion of ReviseAnno over data frames: its table of pandas idioms), py2gallina_guards.py (refusal guards as boolean functions), py2gallina_reader.py (loading protocol of DensityData over symbolic file names), py2gallina_writers.py (writers of the intermediates as file-action lists) and py2gallina_cf.py (queue/event loops as interaction programs); the "
+        "py2gallina_revise.py (recursion of ReviseAnno over data frames: its table of pandas idioms), py2gallina_guards.py (refusal guards as boolean functions), py2gallina_reader.py (loading protocol of DensityData over symbolic file names), py2gallina_writers.py (writers of the intermediates as file-action lists), py2gallina_store.py (constructor of the density store over h5py's require_dataset) and py2gallina_cf.py (queue/event loops as interaction programs); the "
         "correspondence harness (generators, drivers, abstraction, float rule); CPython/pandas/numpy/h5py. "
         "Modelled, not verified: int32/float32 narrowing, pandas/h5py semantics (tied by execution).")
 
@@ -118,8 +118,8 @@ CHECKS = {
              "of generated pairs through the real library stages (gene-side defects also in an output directory where the valid pair was processed before, files edited in place with older mtimes) and a sample through the CLI: must raise / exit non-zero with no <genome>_<chrom>.h5 written.",
         design="DESIGN.md 6 C18"),
     "C19": dict(
-        technique="Coq proof (case analysis of the open sequence; induction over open/write histories) + histories on real HDF5 files",
-        text="Theorems c19_accept_iff_and_unchanged/error_kind/opens_preserve/reopen_accept_iff/reachable over the model of _DensitySubset; "
+        technique="Coq proof (case analysis of the open sequence; induction over open/write histories) + _DensitySubset.__init__ and the methods it calls translated from /repo on every run and proved equal to the model's open + histories on real HDF5 files",
+        text="Theorem c19_code_refines_model: the constructor as translated from the current sources equals Model.Store2.open for every configuration and stored group; c19_accept_iff_and_unchanged/error_kind/opens_preserve/reopen_accept_iff/reachable over the model of _DensitySubset; "
              "random histories (equal / length+-1 / one element / order differences in each of the three lists, several groups) on real scratch HDF5 files, "
              "group contents digested before/after every open and compared with the model. Domain: non-empty identifiers (a stored empty name is h5py's 'uninitialised' marker; c19_empty_name_note).",
         design="DESIGN.md 6 C19"),
